@@ -233,12 +233,12 @@ def _epsilon_guard(ctx, cls):
                 return OPS[c[1]](c[2][1], n)
         return None
 
-    def draws(t):
-        return any(x[0] == "call" and x[1][0] == "attr" and x[1][2] in ("multivariate_normal", "normal") for x in ir.walk(t))
+    def estimates_spread(t):  # the hazardous operations: spread / correlation of the selected effects, or a draw that needs them
+        return any(x[0] == "call" and ir.show(x[1]).split(".")[-1] in ("var", "std", "corrcoef", "cov", "multivariate_normal", "rvs")
+                   for x in ir.walk(t))
 
-    sampling = [r for r in s.returns if draws(r[1])]
-    early = [r for r in s.returns if not draws(r[1])]
-    ctx.sites("C06.R8.epsilon-guard", len(sampling), 1, "sampling return of _sample_test_epsilon")
+    early = [r for r in s.returns if not estimates_spread(r[1])]
+    ctx.sites("C06.R8.epsilon-guard", len(s.returns), 1, "returns of _sample_test_epsilon")
     covered = {}
     for n in (0, 1):
         covered[n] = any(pc and all(ev(c, n) is pol for c, pol in pc) for pc, _, _ in early)
